@@ -167,6 +167,20 @@ def atomicity_cases(rng, n):
                 if len(problems) >= 2:
                     break
         final = list(att.value)
+        # request-scoped state must not live on objects that all sessions share (the Message Router / Logix object, the tag's Attribute):
+        # whatever a request leaves there can be overwritten by another session's request between two steps of this one
+        def snapshot(o):
+            return {k: id(v) for k, v in vars(o).items()}
+        before = snapshot(im.mr), snapshot(att)
+        for r in (('readf', ('sym', 'T', 2), 3, 0), ('writef', ('sym', 'T', 1), 196, 2, 0, [('i', 5), ('i', 6)]), ('get', ('num', 0x99, 1, 1, None)),
+                  ('multi', [('read', ('sym', 'T', 0), 2), ('write', ('sym', 'T', 3), 196, 1, [('i', 9)])]), ('read', ('sym', 'nosuch', None), 1)):
+            im.request(r)
+        after = snapshot(im.mr), snapshot(att)
+        for what, b4, af in (('the Message Router / Logix object', before[0], after[0]), ('the tag\'s Attribute', before[1], after[1])):
+            changed = sorted(k for k in af if k not in b4 or (b4[k] != af[k] and k not in ('default', 'value', '_value')))
+            if changed:
+                problems.append(dict(shared_object=what, attributes=changed,
+                                     problem='handling requests left request-scoped state (%s) on %s, which every session\'s thread shares' % (', '.join(changed), what)))
     finally:
         im.close()
     return problems, sched, final
